@@ -181,11 +181,22 @@ func VerifyFunc(ld *Loader, specs *Specs, fk string, safetyOnly bool) (res *Func
 				if at.hits == 0 {
 					res.OutOfSubset = fmt.Sprintf("anchor %q matched no instruction", at.Anchor)
 				}
+				if at.Count > 0 && at.hits > 0 {
+					// the contract says how many instructions this anchor stands for (xN): one more or one
+					// fewer means code was added or removed that the contract does not describe
+					goal := TTrue
+					if len(at.sites) != at.Count {
+						goal = TFalse
+					}
+					o := ex.vc.Oblige("anchors", fmt.Sprintf("%s matches exactly %d instructions", at.Anchor, at.Count), TTrue, goal, fmt.Sprintf("matched %d", len(at.sites)))
+					o.ModelOf = nil
+				}
 			}
 			return
 		}
 		for _, at := range fc.Ats {
 			at.hits = 0
+			at.sites = nil
 		}
 		prev = ex
 	}
